@@ -5,9 +5,9 @@ package main
 
 import (
 	"fmt"
-	"regexp"
 	"go/token"
 	"go/types"
+	"regexp"
 	"strings"
 
 	"golang.org/x/tools/go/ssa"
